@@ -224,6 +224,48 @@ pub fn replay_c04(line: &Value, out: &mut Out, stats: &mut ReplayStats) {
   }
 }
 
+/// G direction: one entry of the base-cell tables of lib.rs / of the MainWind helpers, as the geometry defines it
+pub fn replay_tables(line: &Value, out: &mut Out, stats: &mut ReplayStats) {
+  fn wind_name(w: &MainWind) -> &'static str {
+    match w { MainWind::S => "S", MainWind::SE => "SE", MainWind::E => "E", MainWind::SW => "SW", MainWind::C => "C",
+              MainWind::NE => "NE", MainWind::W => "W", MainWind::NW => "NW", MainWind::N => "N" }
+  }
+  let kind = line["k"].as_str().unwrap();
+  stats.calls += 1;
+  let got: Value = match kind {
+    "bn" => {
+      let b = line["b"].as_u64().unwrap() as u8;
+      let w = line["w"].as_str().unwrap();
+      match guarded(|| cdshealpix::neighbour(b, mw(w))) { Some(Some(x)) => json!([x]), Some(None) => json!([]), None => json!("!") }
+    }
+    "dfn" => {
+      let b = line["b"].as_u64().unwrap() as u8;
+      let w = line["w"].as_str().unwrap();
+      match guarded(|| cdshealpix::direction_from_neighbour(b, &mw(w))) { Some(d) => json!(wind_name(&d)), None => json!("!") }
+    }
+    "ecd" => {
+      let b = line["b"].as_u64().unwrap() as u8;
+      let w = line["w"].as_str().unwrap();
+      let inner = line["inner"].as_str().unwrap();
+      match guarded(|| cdshealpix::edge_cell_direction_from_neighbour(b, &mw(inner), &mw(w))) { Some(d) => json!(wind_name(&d)), None => json!("!") }
+    }
+    "opp" => {
+      let w = line["w"].as_str().unwrap();
+      match guarded(|| mw(w).opposite()) { Some(d) => json!(wind_name(&d)), None => json!("!") }
+    }
+    "off" => {
+      let a = line["ose"].as_i64().unwrap() as i8;
+      let c = line["osw"].as_i64().unwrap() as i8;
+      match guarded(|| MainWind::from_offsets(a, c)) { Some(d) => json!(wind_name(&d)), None => json!("!") }
+    }
+    _ => json!("?"),
+  };
+  if got != line["r"] {
+    stats.bad += 1;
+    out.emit(json!({"verdict": "mismatch", "ev": "table", "k": kind, "line": line, "got": got}));
+  }
+}
+
 // ------------------------------------------------------------------------------------------ C14
 use cdshealpix::compass_point::{Cardinal, Ordinal};
 pub fn card(name: &str) -> Cardinal { match name { "S" => Cardinal::S, "E" => Cardinal::E, "N" => Cardinal::N, "W" => Cardinal::W, _ => panic!("bad cardinal") } }
